@@ -352,7 +352,12 @@ def split_semantics(ctx, rep, rule: str, copies) -> None:
     n_impl = 0
     for cq in copies:
         fi = repo.lookup_method(repo.cls(cq), "_split_local_dist_buffers")
-        if fi is None or fi.qual in seen:
+        if fi is None:
+            # merged into its caller: the byte-layout interpretation of _construct_distributed_buffers decides the same views
+            n_impl += 1
+            rep.ob(rule, f"split-semantics:{cq.split(':')[1]}._split_local_dist_buffers", True, "", "no separate split helper in this class: its effect is decided with the caller (buffer-layout)", nontrivial=False)
+            continue
+        if fi.qual in seen:
             continue
         seen.add(fi.qual)
         n_impl += 1
@@ -426,7 +431,113 @@ def split_semantics(ctx, rep, rule: str, copies) -> None:
                             if got != tuple(want) and len(bad) < 3:
                                 bad.append((bsr, got, tuple(want)))
         rep.ob(rule, f"split-semantics:{fi.qual.split(':')[-1]}", not bad, fi.loc(), f"{n} cases (2-3 ranks, 1-4 blocks, every owner sequence, three size patterns, with and without slack): view i lies in its owner's segment at the owner's running offset" + (f"; first disagreement at (size, owner)={bad[0][0]}: code gives {bad[0][1]}, required {bad[0][2]}" if bad else ""), sample=True)
-    rep.floor(rule, "implementations of _split_local_dist_buffers", n_impl, 2)
+    rep.floor(rule, "implementations of _split_local_dist_buffers", n_impl, min(2, len(copies)))
+
+
+def _layout_cases():
+    """(group size, block shapes, communication dtype name, owners, group rank) for the buffer-layout interpretation."""
+    import itertools
+
+    shapes_sets = [((2, 3), (4,), (1,)), ((5,),), ((3, 3), (3, 3)), ((1,), (2, 2), (7,), (2,))]
+    for G in (1, 2, 3):
+        for shapes in shapes_sets:
+            for dt in ("float32", "bfloat16"):
+                owner_seqs = list(itertools.product(range(G), repeat=len(shapes)))
+                if len(owner_seqs) > 9:
+                    owner_seqs = owner_seqs[:: max(1, len(owner_seqs) // 9)]
+                for owners in owner_seqs:
+                    for gr in range(G):
+                        yield G, shapes, dt, owners, gr
+
+
+def _layout_inputs(G, shapes, dt, owners, gr):
+    import math
+    from types import SimpleNamespace
+
+    from .. import simtensor as ST
+
+    item = ST.DTYPES[dt].itemsize
+    sizes = [-(-(math.prod(sh) * item) // 64) * 64 for sh in shapes]
+    bsr = tuple(zip(sizes, owners))
+
+    def make(sim):
+        w = sim.world
+        f32 = ST.DTYPES["float32"]
+        params = tuple(ST.SymT(w, w.new_storage(math.prod(sh) * 4, "param"), 0, sh, f32) for sh in shapes)
+        selfobj = SimpleNamespace(_is_self=True, _group_size=G, _dist_group_size=G, _global_blocked_params=params, _distributor_selector=tuple(o == gr for o in owners))
+        return selfobj, [bsr, ST.DTYPES[dt], gr], {}
+
+    return bsr, item, make
+
+
+def buffer_layout_semantics(ctx, rep, rule: str, copies) -> None:
+    """_distribute_buffer_sizes and _construct_distributed_buffers of every copy, interpreted on concrete cases in the byte-layout
+    tensor model (sv/simtensor.py) against the documented result: sizes rounded up to 64, largest first (stable), each to the
+    least-loaded rank (ties: lowest rank); one int8 gather buffer of group_size x (largest per-rank sum) bytes, the rank's
+    send buffer its own segment, block i a view of numel_i x itemsize(communication dtype) bytes at the running offset inside
+    its owner's segment, in the communication dtype and the block's shape; the local lists are the selector's choice."""
+    import heapq
+    import math
+    from types import SimpleNamespace
+
+    from .. import simtensor as ST
+    from ..guards import Unsupported
+
+    repo = ctx.repo
+    for cq in copies:
+        ci = repo.cls(cq)
+        # ---- assignment
+        fi = repo.lookup_method(ci, "_distribute_buffer_sizes")
+        bad, n = [], 0
+        for G in (1, 2, 3, 4):
+            for sizes in ((128, 64, 500, 256), (1,), (64, 64, 64), (65, 1, 129, 64, 64), (0, 10), (300, 200, 100, 100, 100, 100), ()):
+                n += 1
+                al = [-(-x // 64) * 64 for x in sizes]
+                heap = [(0, r) for r in range(G)]
+                want = [None] * len(sizes)
+                for idx, a in sorted(enumerate(al), key=lambda t: t[1], reverse=True):
+                    load, r = heapq.heappop(heap)
+                    heapq.heappush(heap, (load + a, r))
+                    want[idx] = (a, r)
+                try:
+                    got = ST.outcome(repo, fi, ci, lambda sim, G=G, sizes=sizes: (SimpleNamespace(_is_self=True, _group_size=G, _dist_group_size=G), [tuple(sizes)], {}))
+                except Unsupported as u:
+                    raise AnalysisError(f"{rule}: {fi.qual} outside the interpreted sub-language: {u}") from u
+                if not (got[0] == "ok" and got[1] == tuple(want)) and len(bad) < 2:
+                    bad.append((G, sizes, got[1] if got[0] == "ok" else got, tuple(want)))
+        rep.ob(rule, f"assignment-semantics:{ci.name}", not bad, fi.loc(), f"{n} cases (1-4 ranks, 7 size lists incl. ties, zero and empty): (aligned size, rank) per block = 64-aligned sizes, largest first (stable), each to the least-loaded rank with ties to the lowest rank" + (f"; group size {bad[0][0]}, sizes {bad[0][1]}: code gives {bad[0][2]}, documented {bad[0][3]}" if bad else ""), sample=True)
+        # ---- layout
+        fi = repo.lookup_method(ci, "_construct_distributed_buffers")
+        bad, n = [], 0
+        for G, shapes, dt, owners, gr in _layout_cases():
+            n += 1
+            bsr, item, make = _layout_inputs(G, shapes, dt, owners, gr)
+            per_rank = [sum(s_ for s_, r in bsr if r == q) for q in range(G)]
+            M = max(per_rank)
+            gb = len(shapes)  # storage ordinal of the gather buffer: allocated after the parameter storages
+            offs = [0] * G
+            views = []
+            for (s_, r), sh in zip(bsr, shapes):
+                views.append(("T", gb, r * M + offs[r], math.prod(sh) * item, dt, tuple(sh)))
+                offs[r] += s_
+            sel = tuple(o == gr for o in owners)
+            want = {
+                "_global_dist_buffer": ("T", gb, 0, G * M, "int8", (G * M,)),
+                "_local_dist_buffer": ("T", gb, gr * M, M, "int8", (M,)),
+                "_global_dist_blocked_buffers": tuple(views),
+                "_local_dist_blocked_buffers": tuple(v for v, k in zip(views, sel) if k),
+                "_global_masked_dist_blocked_buffers": tuple(views),
+                "_local_masked_dist_blocked_buffers": tuple(v for v, k in zip(views, sel) if k),
+            }
+            try:
+                got = ST.outcome(repo, fi, ci, make)
+            except Unsupported as u:
+                raise AnalysisError(f"{rule}: {fi.qual} outside the interpreted sub-language: {u}") from u
+            state = dict(got[2]) if got[0] == "ok" else {}
+            diff = [k for k, v in want.items() if state.get(k) != v]
+            if (got[0] != "ok" or diff) and len(bad) < 2:
+                bad.append((G, shapes, dt, owners, gr, got if got[0] != "ok" else {k: state.get(k) for k in diff[:1]}, {k: want[k] for k in diff[:1]}))
+        rep.ob(rule, f"buffer-layout:{ci.name}", not bad, fi.loc(), f"{n} cases (1-3 ranks, 4 block-shape sets, float32 / bfloat16 communication, owner sequences, every group rank): one int8 gather buffer of group_size x max per-rank bytes; block views at the owner's running offset with numel x itemsize bytes, communication dtype, block shape; local = selected" + (f"; at group size {bad[0][0]}, shapes {bad[0][1]}, {bad[0][2]}, owners {bad[0][3]}, rank {bad[0][4]}: code builds {bad[0][5]}, documented {bad[0][6]}" if bad else ""), sample=True)
 
 
 def run(ctx, rep) -> None:
@@ -450,4 +561,5 @@ def run(ctx, rep) -> None:
     rep.attempt("sibling_pairs", sibling_pairs, ctx, rep, "C14.3", dist_pairs())
     rep.attempt("buffer_views", buffer_views, ctx, rep, "C14.4", COPIES)
     rep.attempt("split_semantics", split_semantics, ctx, rep, "C14.4", COPIES)
+    rep.attempt("buffer_layout_semantics", buffer_layout_semantics, ctx, rep, "C14.4", COPIES)
     rep.assume("the 4/3 bound, load-difference bound, 64-byte alignment arithmetic and non-overlap of offsets (integer arithmetic over all size sequences) are NOT decided")
